@@ -82,7 +82,7 @@ Resolve(w) ==
   LET fb == Fallback(w)
       ym == fb # "nofallback"
   IN [fb |-> fb, ym |-> ym,
-      crash |-> ym /\ w.name # "none" /\ w.fl[w.name] = "none",      \* is_file_phonopy_yaml opens the named file
+      crash |-> ym /\ w.name # "none" /\ w.fl[w.name] = "none",      \* the named file does not exist (only phonopy-load)
       ename |-> IF ym /\ w.name # "none" /\ ~LooksPhonopyYaml(w.fl[w.name], w.yv) THEN "none" ELSE w.name]
 
 (* Step 2 - Read (read_crystal_structure / _read_phonopy_yaml / _get_cell_filename).                              *)
@@ -115,7 +115,7 @@ FailureMessage(w, r, rd) ==                         \* _get_error_message
        IN [facts |-> head.facts \cup {"yamlmode"} \cup tail.facts, ment |-> head.ment \cup tail.ment]
 
 Settle(w, r, rd) ==
-  IF r.crash THEN [NoneOut EXCEPT !.st = "exc", !.ment = {w.name}]
+  IF r.crash THEN [NoneOut EXCEPT !.st = "err", !.facts = {"notfound"}, !.ment = {w.name}]   \* see note (N) below
   ELSE IF ~rd.cell
   THEN LET m == FailureMessage(w, r, rd) IN [NoneOut EXCEPT !.st = "err", !.facts = m.facts, !.ment = m.ment]
   ELSE
@@ -136,6 +136,10 @@ Settle(w, r, rd) ==
   ELSE [st |-> "ok", src |-> f, mode |-> xmode, dim |-> xdim, pa |-> xpa,
         mag |-> IF w.mag = "ok" THEN "opt" ELSE mag0, yml |-> r.ym, facts |-> {}, ment |-> {}]
 
+(* (N) The named file of phonopy-load does not exist: the machine states the INTENDED outcome - the message the  *)
+(* other mode gives for the same mistake ('Crystal structure file "<name>" was not found.', and '"<name>" was not  *)
+(* found.' when it is the first argument).  The pinned code opens the file unguarded (is_file_phonopy_yaml) and    *)
+(* raises FileNotFoundError when the name comes from CELL_FILENAME of the configuration file: ImplNoTraceback.     *)
 Decide(w) == LET r == Resolve(w) IN LET rd == ReadStep(w, r) IN Settle(w, r, rd)
 
 -----------------------------------------------------------------------------
